@@ -11,8 +11,6 @@ use crate::plan::*;
 use crate::trace::*;
 use crate::world::*;
 
-type MemoFn = Rc<std::cell::RefCell<Box<dyn FnMut(i64) -> Incr<i64>>>>;
-
 #[derive(Clone)]
 struct Captured {
     outers: Vec<(Hid, Incr<i64>)>,
@@ -32,6 +30,7 @@ fn expr_hb(e: &BodyExpr, base: i32, cap_hb: i32, memo_hb: i32) -> i32 {
             body_hb(b, lc, cap_hb, memo_hb)
         }
         BodyExpr::Memo { .. } => memo_hb.max(base + 1),
+        BodyExpr::LocalMemo { .. } => cap_hb.max(base) + 1,
     }
 }
 /// height bound of the main node of a bind whose change-detector node is at most `lc`
@@ -94,11 +93,13 @@ pub fn new_bind(w: &Rc<World>, lhs: usize, body: &BodySpec) {
         .borrow()
         .iter()
         .enumerate()
-        .filter_map(|(i, m)| m.f.clone().map(|f| (i, f)))
+        // a real clone of the memoised function, as a closure that owns one would hold
+        .filter_map(|(i, m)| m.f.as_ref().map(|f| (i, Rc::new(std::cell::RefCell::new(f.borrow().clone_box())))))
         .collect();
     let cap = Captured { outers, memos };
     let spec = Arc::new(body.clone());
-    make_bind(w, &lhs_incr, l, spec, cap, None, true, lhs_clean, hb);
+    let (_, bhid) = make_bind(w, &lhs_incr, l, spec, cap, None, true, lhs_clean, hb);
+    w.last_bind.set(Some(bhid));
 }
 
 /// Creates a bind node over `lhs_incr` and registers it. Returns (node, hid).
@@ -215,6 +216,9 @@ fn build(cx: &Cx, e: &BodyExpr) -> (Incr<i64>, Hid) {
                 r
             });
             w.register(NodeH::I(n.clone()), RK::BMap { src: he, f, l }, Some(cx.scope), cx.export, false, cx.hb);
+            if cx.export {
+                w.last_exported.set(Some(hid));
+            }
             (n, hid)
         }
         BodyExpr::Map2(a, b, f) => {
@@ -255,6 +259,32 @@ fn build(cx: &Cx, e: &BodyExpr) -> (Incr<i64>, Hid) {
             let spec = Arc::new((**body).clone());
             let keep = cx.export || body.export;
             let (n, hid) = make_bind(w, &ie, he, spec, cx.cap.clone(), Some(cx.scope), keep, false, cx.hb);
+            (n, hid)
+        }
+        BodyExpr::LocalMemo { k } => {
+            if cx.cap.outers.is_empty() {
+                return build(cx, &BodyExpr::Const(*k));
+            }
+            let (src_hid, src) = cx.cap.outers[0].clone();
+            let weak = Rc::downgrade(w);
+            // memoised inside the closure: the table and its nodes belong to this run of the bind
+            let mut memo = st.weak_memoize_fn(move |key: i64| {
+                let w = weak.upgrade().expect("world gone");
+                let hid = w.next_hid();
+                let mut lg = logged(&w, hid, vec![]);
+                src.map(move |x: &i64| {
+                    let r = norm(*x + key);
+                    lg(vec![MV::I(*x)], MV::I(r));
+                    r
+                })
+            });
+            let key = (*k + l).rem_euclid(3);
+            let hid = w.next_hid();
+            let n = memo(key);
+            w.register(NodeH::I(n.clone()), RK::BMemo { src: src_hid, key }, Some(cx.scope), cx.export, false, cx.hb);
+            if cx.export {
+                w.last_exported.set(Some(hid));
+            }
             (n, hid)
         }
         BodyExpr::Memo { m, k } => {
